@@ -130,6 +130,8 @@ pub enum DebuggerEvent {
 pub struct DebuggerContext {
     handle: Option<JoinHandle<()>>,
     is_done: Arc<AtomicBool>,
+    /// Set by `cont`, consumed by the parsing thread waiting at a breakpoint.
+    resume: Arc<AtomicBool>,
     grammar: Option<Vec<OptimizedRule>>,
     input: Option<String>,
     breakpoints: Arc<Mutex<HashSet<String>>>,
@@ -243,6 +245,7 @@ impl DebuggerContext {
         let breakpoints = Arc::clone(&self.breakpoints);
         let is_done = Arc::clone(&self.is_done);
         let is_done_signal = Arc::clone(&self.is_done);
+        let resume = Arc::clone(&self.resume);
 
         let rsender = sender.clone();
         thread::spawn(move || {
@@ -263,7 +266,15 @@ impl DebuggerContext {
                             .send(DebuggerEvent::Breakpoint(rule, pos.pos()))
                             .expect(CHANNEL_CLOSED_PANIC);
 
-                        thread::park();
+                        // `park` may return without a matching `unpark` (spuriously, or on a token
+                        // left by an earlier wake-up): only `cont` or a new `run` ends the wait.
+                        while resume
+                            .compare_exchange(true, false, Ordering::SeqCst, Ordering::SeqCst)
+                            .is_err()
+                            && !is_done_signal.load(Ordering::SeqCst)
+                        {
+                            thread::park();
+                        }
                     }
                     false
                 }),
@@ -322,6 +333,7 @@ impl DebuggerContext {
         }
 
         self.is_done.store(false, Ordering::SeqCst);
+        self.resume.store(false, Ordering::SeqCst);
         let ast = self
             .grammar
             .as_ref()
@@ -347,6 +359,7 @@ impl DebuggerContext {
 
         match self.handle {
             Some(ref handle) => {
+                self.resume.store(true, Ordering::SeqCst);
                 handle.thread().unpark();
                 Ok(())
             }
@@ -368,6 +381,7 @@ impl Default for DebuggerContext {
         Self {
             handle: None,
             is_done: Arc::new(AtomicBool::new(false)),
+            resume: Arc::new(AtomicBool::new(false)),
             grammar: None,
             input: None,
             breakpoints: Arc::new(Mutex::new(HashSet::new())),
